@@ -105,9 +105,11 @@ class Tr:
         self.cfg = cfg
         self.vars = {k: parse_type(v) for k, v in cfg["vars"].items()}
         pat = lambda p: Rename().visit(ast.parse(p, mode="eval")).body
-        self.prims = [(pat(p), tmpl, parse_type(ty)) for p, tmpl, ty in cfg.get("prims", [])]
+        self.prims = [(pat(x[0]), x[1], parse_type(x[2]), {h: parse_type(t) for h, t in (x[3] if len(x) > 3 else {}).items()})
+                      for x in cfg.get("prims", [])]
         self.ignore = [pat(p) for p in cfg.get("ignore", [])]
         self.effects = [(pat(p), var, tmpl) for p, var, tmpl in cfg.get("effects", [])]
+        self.effect_calls = [(pat(p), var, st_t, val_t, parse_type(ty)) for p, var, st_t, val_t, ty in cfg.get("effect_calls", [])]
         self.eqb = cfg.get("eqb", {})
         self.raises = list(cfg.get("raises", []))  # [(substring of unparse(raise stmt), tag)]
         self.fresh = 0
@@ -148,11 +150,20 @@ class Tr:
 
     # ---- expressions: returns (term, type); appends checked unwraps to hoist [(name, term)]
     def expr(self, e, env, hoist, want=None):
-        for pat, tmpl, ty in self.prims:
+        for pat, tmpl, ty, argtys in self.prims:
             binds = {}
             if self.unify(pat, e, binds):
-                args = {k[2:]: self.expr(v, env, hoist)[0] for k, v in binds.items()}
+                args = {}
+                for k, v in binds.items():
+                    a, at = self.expr(v, env, hoist)
+                    args[k[2:]] = self.need(a, at, argtys[k[2:]], hoist) if k[2:] in argtys else a
+                if tmpl.startswith("!"):     # a primitive that may raise: the template denotes a `result T`
+                    n = self.new("r")
+                    hoist.append((n, tmpl[1:].format(**args)))
+                    return n, ty
                 return "(" + tmpl.format(**args) + ")", ty
+        if isinstance(e, ast.Name) and e.id.startswith("MATCHCLASS:"):
+            return "(" + e.id[len("MATCHCLASS:"):] + ")", ("bool",)
         if isinstance(e, ast.Name):
             if e.id not in env:
                 raise Unsupported("read of a variable that is not bound here: %s" % e.id)
@@ -322,11 +333,16 @@ class Tr:
                     add(n)
             elif isinstance(st, ast.For):
                 for n in self.targets(st.target) + self.assigned(st.body):
-                    add(n)
+                    if n != "_":
+                        add(n)
                 if st.orelse:
                     raise Unsupported("for/else")
             elif isinstance(st, (ast.Continue, ast.Raise, ast.Return)):
                 pass
+            elif isinstance(st, ast.Match):
+                for c in st.cases:
+                    for n in self.assigned(c.body):
+                        add(n)
             else:
                 raise Unsupported("statement: " + ast.unparse(st)[:80])
         return out
@@ -391,6 +407,18 @@ class Tr:
             if len(st.targets) != 1:
                 raise Unsupported("multiple assignment: " + ast.unparse(st))
             tgt = st.targets[0]
+            for patn, var, st_t, val_t, vty in self.effect_calls:
+                binds = {}
+                if isinstance(tgt, ast.Name) and self.unify(patn, st.value, binds):
+                    if var not in env or self.var_type(tgt.id) != vty:
+                        raise Unsupported("effect call: " + ast.unparse(st))
+                    args = {kk[2:]: self.expr(v, env, hoist)[0] for kk, v in binds.items()}
+                    args["state"] = var
+                    env2 = dict(env)
+                    env2[tgt.id] = vty
+                    txt = "%slet %s : %s := %s in\n%slet %s := %s in\n" % (
+                        ind, tgt.id, coq_type(vty), val_t.format(**args), ind, var, st_t.format(**args))
+                    return self.bind_hoist(hoist, txt, ind) + self.block(rest, env2, k, ind)
             if isinstance(tgt, ast.Name):
                 ty = self.var_type(tgt.id)
                 v, vt = self.expr(st.value, env, hoist)
@@ -478,7 +506,37 @@ class Tr:
             return self.bind_hoist(hoist, txt, ind) + self.block(rest, env_after, k, ind)
         if isinstance(st, ast.For):
             return self.loop(st, rest, env, k, ind)
+        if isinstance(st, ast.Match):
+            return self.block([self.match_to_if(st)] + rest, env, k, ind)
         raise Unsupported("statement: " + ast.unparse(st)[:80])
+
+    def match_to_if(self, st):
+        """match <subject>: case C1(): ... case C2(): ... case other: ...   ->   if/elif/else on the class tests
+        declared in cfg["match_class"] (subject text -> {class name: Gallina bool}); tested in source order"""
+        table = self.cfg.get("match_class", {}).get(ast.unparse(st.subject))
+        if table is None:
+            raise Unsupported("match on an undeclared subject: " + ast.unparse(st.subject))
+        chain, tail = [], None
+        for i, c in enumerate(st.cases):
+            if c.guard is not None:
+                raise Unsupported("match guard")
+            p = c.pattern
+            if isinstance(p, ast.MatchClass) and isinstance(p.cls, ast.Name) and not p.patterns and not p.kwd_patterns:
+                name = p.cls.id[:-len(SUFFIX)] if p.cls.id.endswith(SUFFIX) else p.cls.id
+                if name not in table:
+                    raise Unsupported("match class without a declared test: " + name)
+                marker = ast.Name(id="MATCHCLASS:" + table[name], ctx=ast.Load())
+                chain.append((marker, c.body))
+            elif isinstance(p, ast.MatchAs) and p.pattern is None and i == len(st.cases) - 1:
+                tail = c.body     # wildcard / capture: the bound name may only be used in ignored or raise statements
+            else:
+                raise Unsupported("match pattern: " + ast.unparse(p))
+        node = tail if tail is not None else []
+        for marker, body in reversed(chain):
+            node = [ast.If(test=marker, body=body, orelse=node)]
+        if not chain:
+            raise Unsupported("match without class cases")
+        return node[0]
 
     def unsupported(self, msg):
         raise Unsupported(msg)
@@ -641,7 +699,7 @@ def rename_cfg(cfg):
     c["unused_params"] = [rn(x) for x in cfg.get("unused_params", [])]
     c["params"] = [(rn(n) if n in cfg["pyparams"] else n, t) for n, t in cfg["params"]]
     c["predefine"] = {rn(k): v for k, v in cfg.get("predefine", {}).items()}
-    c["effects"] = [(p, rn(var), tmpl) for p, var, tmpl in cfg.get("effects", [])]
+    c["match_class"] = {rn(k): v for k, v in cfg.get("match_class", {}).items()}
     c["range_like"] = tuple(rn(x) for x in cfg.get("range_like", ("range",)))
     return c
 
